@@ -94,6 +94,8 @@ type Monitors struct {
 	reqCount    map[string]int
 	DupRequests int // schedule keys requested at least twice (any incarnation, incl. injected duplicates)
 	cronJCs     map[string]*cronJC
+	bootSnap    map[int]map[string]bootJC // incarnation -> JobConfig key -> persisted state at boot
+	Injecting   bool                      // the harness itself is re-delivering a schedule request
 	// JobConfigs (uid) for which a start write was applied but reported as a timeout to the queue controller
 	timedOutStart map[string]bool
 	// non-triviality measures
@@ -196,6 +198,35 @@ func (m *Monitors) onCronRequest(inc *Incarnation, item interface{}) {
 		m.DupRequests++
 	}
 	m.cronReq = append(m.cronReq, CronRequest{Key: k, At: m.w.Clk.Now(), Inc: inc.N})
+	if m.Injecting || inc.N < 2 {
+		return
+	}
+	// C04 end to end: requests of a restarted controller
+	if i := strings.LastIndex(k, "."); i > 0 {
+		u, err := strconv.ParseInt(k[i+1:], 10, 64)
+		b, ok := m.bootSnap[inc.N][k[:i]]
+		if err != nil || !ok {
+			return
+		}
+		// the JobConfig must still be the same object
+		same := false
+		for _, o := range m.w.API.List(KJobConfig) {
+			if jc := o.(*execution.JobConfig); jc.Namespace+"/"+jc.Name == k[:i] && string(jc.UID) == b.UID {
+				same = true
+			}
+		}
+		if !same {
+			return
+		}
+		m.Evals["C04"]++
+		t := time.Unix(u, 0)
+		if !b.LastScheduled.IsZero() && !t.After(b.LastScheduled) {
+			m.fail("C04", "re-requested-at-or-before-lastScheduled", "restarted controller %s requests %s for %v although lastScheduled was %v when it started", inc.Actor, k[:i], t.Sub(Epoch), b.LastScheduled.Sub(Epoch))
+		}
+		if b.LastScheduled.IsZero() && t.Before(inc.BootAt.Truncate(time.Second)) {
+			m.fail("C04", "never-scheduled-back-scheduled", "restarted controller %s back-schedules %s for %v although it was never scheduled before the start at %v", inc.Actor, k[:i], t.Sub(Epoch), inc.BootAt.Sub(Epoch))
+		}
+	}
 }
 
 // CronRequests returns every schedule request observed so far.
@@ -259,7 +290,29 @@ func ownerJobUID(p *corev1.Pod) string {
 	return ""
 }
 
-func (m *Monitors) onBoot(inc *Incarnation)  {}
+// onBoot snapshots, for a restarted controller, what is persisted about every JobConfig at that
+// moment: C04 forbids a later schedule request at or before the recorded last schedule time, and
+// any back-scheduling of a JobConfig that was never scheduled.
+func (m *Monitors) onBoot(inc *Incarnation) {
+	if m.bootSnap == nil {
+		m.bootSnap = map[int]map[string]bootJC{}
+	}
+	snap := map[string]bootJC{}
+	for _, o := range m.w.API.List(KJobConfig) {
+		jc := o.(*execution.JobConfig)
+		b := bootJC{UID: string(jc.UID)}
+		if jc.Status.LastScheduled != nil {
+			b.LastScheduled = jc.Status.LastScheduled.Time
+		}
+		snap[jc.Namespace+"/"+jc.Name] = b
+	}
+	m.bootSnap[inc.N] = snap
+}
+
+type bootJC struct {
+	UID           string
+	LastScheduled time.Time
+}
 func (m *Monitors) onCrash(inc *Incarnation) {}
 func (m *Monitors) onTaskStart(t *Task)      {}
 func (m *Monitors) onTaskDone(t *Task)       {}
